@@ -156,6 +156,26 @@ class AmfFamily(Family):
             for n in (1, 2, 126, 127, 128, 129, 130, 200):
                 bump(stats, "nesting_chain_cases")
                 yield for_value([GA.nest(kind, n)], cuts=False)
+        # wide containers: element / property counts at powers of two, at the u16 edge, and at every integer literal
+        # present in the anchored sources (±1), so that a count limit introduced there is met at its edge
+        counts = {255, 256, 257, 1023, 1024, 1025, 4095, 4096, 4097, 65535, 65536, 65537}
+        for v in harvest_literals(self.anchored):
+            counts.update({v - 1, v, v + 1})
+        cap = 70000 if tier == "quick" else 300000
+        counts = sorted(c for c in counts if 16 <= c <= cap)
+        stats["wide_container_counts"] = counts[:40]
+        for n in counts:
+            arr = ("a", [("z",)] * n)
+            shapes = [[arr, ("b", True)], [("o", [(b"k", arr), (b"j", ("n", 5))])], [("a", [arr, ("u",)])]]
+            if n <= 3000:
+                shapes.append([("o", [(b"p%d" % i, ("b", i % 2 == 0)) for i in range(n)]), ("z",)])
+            for vs in shapes:
+                bump(stats, "wide_container_cases")
+                if n <= 5000:
+                    yield for_value(vs, cuts=False)       # model included (its list appends are quadratic: small n only)
+                else:
+                    t = GA.texts(vs)
+                    yield ([f"!amf.rt {t}"] if c04 else []) + ([f"!amf.spec {t}", f"!amf.refdec {t} {rng.below(1 << 32)}"] if c12 else [])
         # long strings / names, empty names
         for n in (65534, 65535, 65536, 70000):
             yield for_value([("s", b"x" * n)], cuts=False) + for_value([("o", [(b"x" * n, ("z",))])], cuts=False)
